@@ -795,6 +795,141 @@ func ExecStress(c CaseStress) *vkit.Result {
 }
 
 // ---------------------------------------------------------------------------
+// tie stress: the one window the controlled mode cannot own - a grant racing a
+// cancellation. Each round has one holder and one waiter on a key; the holder's
+// release and the waiter's cancel are fired together. Whatever wins, the books
+// must balance: a waiter that got nil holds its tokens until it releases, a
+// waiter that got an error holds nothing, and afterwards the key has no entry.
+
+type CaseTie struct {
+	Config
+	Procs       int  `json:"procs"`
+	Rounds      int  `json:"rounds"`
+	HolderWrite bool `json:"holder_write"`
+	WaiterWrite bool `json:"waiter_write"`
+	CancelFirst bool `json:"cancel_first"` // which of the two racing goroutines is started first
+}
+
+func GenTie(t *rapid.T) CaseTie {
+	c := CaseTie{Config: genConfig(t)}
+	c.Procs = rapid.SampledFrom([]int{2, 4, 8}).Draw(t, "procs")
+	c.Rounds = rapid.SampledFrom([]int{500, 2000, 4000}).Draw(t, "rounds")
+	c.HolderWrite = rapid.Bool().Draw(t, "hw")
+	c.WaiterWrite = rapid.Bool().Draw(t, "ww")
+	c.CancelFirst = rapid.Bool().Draw(t, "cf")
+	return c
+}
+
+func ExecTie(c CaseTie) *vkit.Result {
+	res := &vkit.Result{}
+	if !c.Config.valid() || c.Rounds < 1 || c.Rounds > 100000 {
+		res.Skip("malformed-config")
+		return res
+	}
+	if c.Procs >= 1 && c.Procs <= 64 {
+		defer runtime.GOMAXPROCS(runtime.GOMAXPROCS(c.Procs))
+	}
+	// the waiter must have to wait: a reader only waits behind a writer (or when rwRatio is 1)
+	holderWrite := c.HolderWrite
+	if !c.WaiterWrite && c.RW > 1 {
+		holderWrite = true
+	}
+	sm := c.build()
+	key := c.Keys[0].value()
+	acquire := func(ctx context.Context, write bool) (*semap.Weighted, error) {
+		if write {
+			return sm.AcquireWrite(ctx, key)
+		}
+		return sm.AcquireRead(ctx, key)
+	}
+	release := func(w *semap.Weighted, write bool) {
+		if write {
+			sm.ReleaseWrite(key, w)
+		} else {
+			sm.ReleaseRead(key, w)
+		}
+	}
+	sched := vkit.NewSched()
+	var (
+		problem  string
+		site     string
+		granted  int
+		rejected int
+	)
+	op := sched.Go("tie-rounds", func() {
+		for r := 0; r < c.Rounds && problem == ""; r++ {
+			hw, err := acquire(context.Background(), holderWrite)
+			if err != nil {
+				site, problem = "tie-spurious-failure", fmt.Sprintf("round %d: the holder's acquire on an idle key failed: %v", r, err)
+				return
+			}
+			ctx, cancel := context.WithCancel(context.Background())
+			var ww *semap.Weighted
+			var werr error
+			var wg sync.WaitGroup
+			wg.Add(1)
+			go func() { defer wg.Done(); ww, werr = acquire(ctx, c.WaiterWrite) }()
+			for { // until the waiter is queued (hook)
+				if _, waiters, _ := semap.VerifKeyState(sm, key); waiters == 1 {
+					break
+				}
+				runtime.Gosched()
+			}
+			start := make(chan struct{})
+			var rg sync.WaitGroup
+			rg.Add(2)
+			fire := []func(){func() { defer rg.Done(); <-start; cancel() }, func() { defer rg.Done(); <-start; release(hw, holderWrite) }}
+			if !c.CancelFirst {
+				fire[0], fire[1] = fire[1], fire[0]
+			}
+			go fire[0]()
+			go fire[1]()
+			close(start)
+			rg.Wait()
+			wg.Wait()
+			cancel()
+			if werr == nil {
+				granted++
+				held, _, present := semap.VerifKeyState(sm, key)
+				want := 1
+				if c.WaiterWrite {
+					want = c.RW
+				}
+				if !present || held != want {
+					site, problem = "tie-grant-not-booked", fmt.Sprintf("round %d: the waiter's acquire returned nil, but the key's entry shows present=%v held=%d (want %d)", r, present, held, want)
+					return
+				}
+				release(ww, c.WaiterWrite)
+			} else {
+				rejected++
+			}
+			if held, waiters, present := semap.VerifKeyState(sm, key); present {
+				site, problem = "tie-residue", fmt.Sprintf("round %d (waiter %s): every holder has released and nobody waits, but the key keeps an entry (held %d, waiters %d)", r, map[bool]string{true: "was admitted", false: "failed with its context error"}[werr == nil], held, waiters)
+				return
+			}
+		}
+	})
+	sched.MustQuiesce()
+	if !op.Done() {
+		return res.Failf("tie-deadlock", "a cancel and a release fired together left somebody parked forever (after %d grants, %d cancellations)", granted, rejected)
+	}
+	if p := op.Panic(); p != nil {
+		return res.Failf("tie-panic", "%v", p)
+	}
+	if problem != "" {
+		return res.Failf(site, "%s", problem)
+	}
+	if n := semap.VerifEntries(sm); n != 0 {
+		return res.Failf("tie-residue", "after %d rounds the container keeps %d entries", c.Rounds, n)
+	}
+	if granted > 0 && rejected > 0 {
+		res.Class("both-outcomes-seen")
+	}
+	res.NonTrivial = granted > 0 && rejected > 0
+	return res
+}
+
+// ---------------------------------------------------------------------------
 
 var PartCtl = &vkit.Part[CaseCtl]{
 	Property: Property, Name: "controlled",
@@ -817,4 +952,20 @@ var PartStressRace = &vkit.Part[CaseStress]{
 	Rule:  stressRule + " (binary built with -race)",
 	Quick: 150, Thorough: 1500,
 	Gen: GenStress, Exec: ExecStress,
+}
+
+var tieRule = "rapid: same configurations; per case 500-4000 rounds on one key: a holder acquires, a waiter is confirmed queued (hook), then the holder's release and the waiter's cancel are fired together from two goroutines (GOMAXPROCS 2/4/8). Oracle, whatever wins: nil means the tokens are booked until released, an error means nothing is held, afterwards the key has no entry; nobody stays parked. Non-trivial: both outcomes (granted, cancelled) were seen in the case; distinct = distinct case JSON"
+
+var PartTie = &vkit.Part[CaseTie]{
+	Property: Property, Name: "tie-stress",
+	Rule:  tieRule,
+	Quick: 40, Thorough: 300,
+	Gen: GenTie, Exec: ExecTie,
+}
+
+var PartTieRace = &vkit.Part[CaseTie]{
+	Property: Property, Name: "race-tie-stress",
+	Rule:  tieRule + " (binary built with -race)",
+	Quick: 10, Thorough: 60,
+	Gen: GenTie, Exec: ExecTie,
 }
